@@ -284,6 +284,28 @@ impl<Key> CacheWeight<Key>
     }
 }
 
+/// Read-only accessors used by the model-checking harness in /verif (never compiled without `--cfg cached_verif`).
+#[cfg(cached_verif)]
+impl<'a, Key, Freq> FrequencyCounterBasedMinHeapSamples<'a, Key, Freq>
+    where Freq: Fn(KeyHash) -> FrequencyEstimate {
+    pub(crate) fn verif_snapshot(&self) -> Vec<(KeyId, Weight, FrequencyEstimate)> {
+        self.sample.iter().map(|sampled_key| (sampled_key.id, sampled_key.weight, sampled_key.estimated_frequency)).collect()
+    }
+}
+
+#[cfg(cached_verif)]
+impl<Key> CacheWeight<Key>
+    where Key: Hash + Eq + Send + Sync + Clone + 'static, {
+    /// (key id, key, key hash, weight) of every charged key.
+    pub(crate) fn verif_snapshot(&self) -> Vec<(KeyId, Key, KeyHash, Weight)> {
+        self.key_weights.iter().map(|pair| (*pair.key(), pair.value().key.clone(), pair.value().key_hash, pair.value().weight)).collect()
+    }
+    /// `weight_used` as a reader could see it right now, `None` while it is write-locked. Never blocks.
+    pub(crate) fn verif_peek_weight_used(&self) -> Option<Weight> {
+        crate::verif_rt::peek::rwlock_copy(&self.weight_used)
+    }
+}
+
 #[cfg(test)]
 mod tests {
     use std::sync::Arc;
